@@ -1960,3 +1960,22 @@ m("C10", "onerror-settings-not-restored", C,
 m("C10", "onerror-settings-snapshot-shared", C,
   '''        i18n = identifier("__i18n", id(node))''',
   '''        i18n = identifier("__i18n", node.name)''')
+m("C04", "lambda-defaults-inside-scope", "astutil.py",
+  '''        args = node.args
+        args.defaults = [self.visit(d) for d in args.defaults]
+        args.kw_defaults = [
+            d if d is None else self.visit(d) for d in args.kw_defaults
+        ]
+
+        # A nested scope sees the names bound by the enclosing ones.
+        self.scopes.append(set(self.scopes[-1]))
+        try:''',
+  '''        args = node.args
+
+        # A nested scope sees the names bound by the enclosing ones.
+        self.scopes.append(set(self.scopes[-1]))
+        try:
+            args.defaults = [self.visit(d) for d in args.defaults]
+            args.kw_defaults = [
+                d if d is None else self.visit(d) for d in args.kw_defaults
+            ]''')
